@@ -30,6 +30,7 @@ import (
 	"strings"
 	"sync"
 	"time"
+	"unicode/utf8"
 
 	"github.com/anz-bank/golden-retriever/retriever"
 	"github.com/anz-bank/sysl/pkg/parse"
@@ -50,14 +51,16 @@ type Spec struct {
 	Dirs    [][]string     `json:"dirs"`
 	Imps    [][]Imp        `json:"imps"`
 	Foreign []bool         `json:"foreign"` // file i is a .yaml (OpenAPI) file: a leaf, imported `as Fi.App`
-	Faults  map[int]string `json:"faults"`  // file -> read | imports | body | trunc | detect | convert
+	Faults  map[int]string `json:"faults"`  // file -> read | imports | body | trunc | detect | convert | cut@N | (foreign.go)
 	Max     int            `json:"max"`
+	Kind    []string       `json:"kind,omitempty"` // file i is a foreign file of this kind (foreign.go fkinds): a leaf
 }
 
 func (s *Spec) n() int { return len(s.Imps) }
 func (s *Spec) foreign(i int) bool {
-	return i < len(s.Foreign) && s.Foreign[i]
+	return (i < len(s.Foreign) && s.Foreign[i]) || s.fk(i) != ""
 }
+func (s *Spec) noAs(i int) bool { return s.fk(i) != "" && s.Faults[i] == "noapp" } // imported without `as`
 func baseName(i int) string {
 	if i == 0 {
 		return "root"
@@ -65,6 +68,9 @@ func baseName(i int) string {
 	return fmt.Sprintf("f%d", i)
 }
 func (s *Spec) ext(i int) string {
+	if k := s.fk(i); k != "" {
+		return fkinds[k].ext
+	}
 	if s.foreign(i) {
 		return ".yaml"
 	}
@@ -89,10 +95,14 @@ func (s *Spec) spell(from, to, kind int) string {
 	rel = append(rel, baseName(to))
 	relS := strings.Join(rel, "/")
 	if s.foreign(to) {
-		if kind%2 == 0 {
-			return relS + ".yaml as F" + fmt.Sprint(to) + ".App"
+		as := " as F" + fmt.Sprint(to) + ".App"
+		if s.noAs(to) {
+			as = ""
 		}
-		return rooted + ".yaml as F" + fmt.Sprint(to) + ".App"
+		if kind%2 == 0 {
+			return relS + s.ext(to) + as
+		}
+		return rooted + s.ext(to) + as
 	}
 	switch kind {
 	case 0:
@@ -133,11 +143,12 @@ func cutAt(fault string) (int, bool) {
 }
 
 // cutClass classifies a truncation of `full` to its first n bytes STRUCTURALLY (never by asking the parser):
-//   header : the cut lies inside an application header line, after the first character of the name and
-//            before the line's newline - an incomplete declaration, MUST be reported as an error
-//   valid  : the cut is at a line boundary, the next line starts a new application and the line before is not
-//            an application header - the kept text is a complete file and MUST compile
-//   other  : anything else (inside a body line, in the import lines ...): no demand either way
+//
+//	header : the cut lies inside an application header line, after the first character of the name and
+//	         before the line's newline - an incomplete declaration, MUST be reported as an error
+//	valid  : the cut is at a line boundary, the next line starts a new application and the line before is not
+//	         an application header - the kept text is a complete file and MUST compile
+//	other  : anything else (inside a body line, in the import lines ...): no demand either way
 func cutClass(full string, bodyStart, n int) string {
 	isHeader := func(ls int) bool { // the line starting at ls is an application header
 		return ls < len(full) && full[ls] != ' ' && full[ls] != '\t' && full[ls] != '#' && full[ls] != '\n' && full[ls] != '\r' &&
@@ -166,6 +177,13 @@ func cutClass(full string, bodyStart, n int) string {
 // kind: the effective fault kind of file i ("" = healthy): cuts are header | valid-cut | other-cut
 func (s *Spec) kind(i int) string {
 	f := s.Faults[i]
+	if k := s.fk(i); k != "" {
+		if _, has := s.Faults[i]; !has && fkinds[k].family != "other" {
+			return ""
+		}
+		class, _ := foreignClass(k, i, f, false)
+		return class
+	}
 	if n, ok := cutAt(f); ok {
 		full, bs := s.healthy(i)
 		switch cutClass(full, bs, n) {
@@ -182,6 +200,9 @@ func (s *Spec) kind(i int) string {
 
 func (s *Spec) content(i int) string {
 	fault := s.Faults[i]
+	if k := s.fk(i); k != "" {
+		return foreignContent(k, i, fault)
+	}
 	if n, ok := cutAt(fault); ok && !s.foreign(i) {
 		full, _ := s.healthy(i)
 		if n < len(full) {
@@ -606,7 +627,10 @@ var (
 	reReading = regexp.MustCompile(`^error reading "([^"]+)": \n`)
 	reSyntax  = regexp.MustCompile(`^(\S+) has syntax errors`)
 	reDetect  = regexp.MustCompile(`^error detecting input file format for (\S+)`)
-	reConvert = regexp.MustCompile(`^(\S+) has unknown format`)
+	reConvert = regexp.MustCompile(`^(\S+) (has unknown format|cannot be imported)`)
+	reAmbig   = regexp.MustCompile(`^input file format for (\S+) could be one of`)
+	reJSON    = regexp.MustCompile(`^error converting spec to yaml for: (\S+)`)
+	rePb      = regexp.MustCompile(`^error parsing (\S+): `)
 )
 
 func parseChain(s *Spec, text string) chain {
@@ -643,6 +667,12 @@ func parseChain(s *Spec, text string) chain {
 		c.base, c.file = "detect", id(reDetect.FindStringSubmatch(rest)[1])
 	case reConvert.MatchString(rest):
 		c.base, c.file = "convert", id(reConvert.FindStringSubmatch(rest)[1])
+	case reAmbig.MatchString(rest):
+		c.base, c.file = "ambiguous", id(reAmbig.FindStringSubmatch(rest)[1])
+	case reJSON.MatchString(rest):
+		c.base, c.file = "json", id(reJSON.FindStringSubmatch(rest)[1])
+	case rePb.MatchString(rest):
+		c.base, c.file = "pbdecode", id(rePb.FindStringSubmatch(rest)[1])
 	}
 	return c
 }
@@ -658,6 +688,12 @@ func (c chain) gallina() string {
 		inner = fmt.Sprintf("(EDetect %d)", c.file)
 	case "convert":
 		inner = fmt.Sprintf("(EConvert %d)", c.file)
+	case "ambiguous":
+		inner = fmt.Sprintf("(EAmbiguous %d)", c.file)
+	case "json":
+		inner = fmt.Sprintf("(EJson %d)", c.file)
+	case "pbdecode":
+		inner = fmt.Sprintf("(EPbDecode %d)", c.file)
 	default:
 		return ""
 	}
@@ -687,6 +723,8 @@ func mkReplay(s *Spec, rel []int) Replay {
 		c := s.content(i)
 		if s.Faults[i] == "read" {
 			c = "<read fails>"
+		} else if !utf8.ValidString(c) {
+			c = fmt.Sprintf("(bytes) %q", c)
 		}
 		r.Files[s.path(i)] = c
 	}
@@ -704,7 +742,7 @@ func releasesOf(o Obs) []int {
 func judge(c *common.Ctx, s *Spec, o Obs, rp Replay) {
 	var fl []string
 	for _, i := range sortedFaults(s) {
-		fl = append(fl, fmt.Sprintf("%s:%s", s.path(i), s.Faults[i]))
+		fl = append(fl, fmt.Sprintf("%s:%s", s.path(i), s.Faults[i]+map[bool]string{true: "(" + s.kind(i) + ")"}[s.fk(i) != ""]))
 	}
 	where := fmt.Sprintf("root %s, faults %v, releases %v", s.path(0), fl, rp.Releases)
 	switch {
@@ -774,7 +812,7 @@ func judge(c *common.Ctx, s *Spec, o Obs, rp Replay) {
 		}
 	}
 	if !named {
-		c.Fail("error-names-no-faulty-file", fmt.Sprintf("the error %q names none of the faulty files that were read (%s)", errLine, where), rp)
+		c.Fail("error-names-no-faulty-file:"+strings.Join(ks, "+"), fmt.Sprintf("the error %q names none of the faulty files that were read (%s)", errLine, where), rp)
 		return
 	}
 	if o.Code != 1 && o.Code != 2 {
@@ -782,10 +820,16 @@ func judge(c *common.Ctx, s *Spec, o Obs, rp Replay) {
 	}
 }
 
+// the files that carry a fault; a file whose extension no format lists is faulty whatever it holds
 func sortedFaults(s *Spec) []int {
 	var k []int
 	for i := range s.Faults {
 		k = append(k, i)
+	}
+	for i := 0; i < len(s.Kind); i++ {
+		if _, has := s.Faults[i]; !has && s.Kind[i] != "" && fkinds[s.Kind[i]].family == "other" {
+			k = append(k, i)
+		}
 	}
 	sort.Ints(k)
 	return k
@@ -811,13 +855,26 @@ func gCase(s *Spec, o Obs) string {
 		it[i] = fmt.Sprintf("(%d,%s)", i, gInts(l))
 	}
 	var fl []string
-	for _, i := range sortedFaults(s) {
-		switch k := s.kind(i); k {
-		case "":
-		case "cut-other":
-			return ""
-		default:
-			fl = append(fl, fmt.Sprintf("(%d,%s)", i, faultCtor[k]))
+	ctor := "FLock"
+	if len(s.Kind) > 0 {
+		// the fault of each file is computed by the dispatch model from its description
+		ctor = "FLockD"
+		for i := 0; i < s.n(); i++ {
+			d, ok := s.gDesc(i)
+			if !ok {
+				return ""
+			}
+			fl = append(fl, fmt.Sprintf("(%d,%s)", i, d))
+		}
+	} else {
+		for _, i := range sortedFaults(s) {
+			switch k := s.kind(i); k {
+			case "":
+			case "cut-other":
+				return ""
+			default:
+				fl = append(fl, fmt.Sprintf("(%d,%s)", i, faultCtor[k]))
+			}
 		}
 	}
 	tr := make([]string, len(o.Trace))
@@ -834,7 +891,7 @@ func gCase(s *Spec, o Obs) string {
 		}
 		obs = fmt.Sprintf("OError %s %d", ch, o.Code)
 	}
-	return fmt.Sprintf("FLock [%s] [%s] %d%%nat 0 %s [%s] (%s)", strings.Join(it, ";"), strings.Join(fl, ";"), s.Max, gInts(o.B0), strings.Join(tr, ";"), obs)
+	return fmt.Sprintf(ctor+" [%s] [%s] %d%%nat 0 %s [%s] (%s)", strings.Join(it, ";"), strings.Join(fl, ";"), s.Max, gInts(o.B0), strings.Join(tr, ";"), obs)
 }
 
 // ---------------------------------------------------------------- generators
@@ -946,6 +1003,9 @@ func (s *Spec) faultyIDs() []int {
 }
 
 func (s *Spec) kindsFor(i int) []string {
+	if k := s.fk(i); k != "" {
+		return foreignFaults(k)
+	}
 	if s.foreign(i) {
 		return []string{"detect", "convert", "read"}
 	}
@@ -976,9 +1036,15 @@ type runner struct {
 
 func (r *runner) one(s *Spec, ch Chooser, label string) Obs {
 	o := runJob(Job{Spec: *s, Ch: ch})
+	r.record(s, label, o)
+	return o
+}
+
+// record: judge one observed run, count it and print its case
+func (r *runner) record(s *Spec, label string, o Obs) {
 	if o.Skipped {
 		r.c.Hist("skipped-after-crashes")
-		return o
+		return
 	}
 	rel := releasesOf(o)
 	rp := mkReplay(s, rel)
@@ -988,7 +1054,7 @@ func (r *runner) one(s *Spec, ch Chooser, label string) Obs {
 		read[f] = true
 	}
 	hit := 0
-	for i := range s.Faults {
+	for _, i := range sortedFaults(s) {
 		if k := s.kind(i); read[i] && k != "" && k != "cut-other" {
 			hit++
 			r.c.Hist("hit:" + k)
@@ -1009,45 +1075,7 @@ func (r *runner) one(s *Spec, ch Chooser, label string) Obs {
 		if t := gCase(s, o); t != "" {
 			r.cs.Add(t, rp)
 		} else {
-			r.c.Hist("not-sent-to-coq:unrecognised-error-text")
-		}
-	}
-	return o
-}
-
-// every completion order of the reads (odometer over the choice tree), capped
-func (r *runner) all(s *Spec, limit int) int {
-	var prefix []int
-	count := 0
-	for {
-		o := r.one(s, Chooser{Kind: "prefix", List: append([]int{}, prefix...)}, "enumerated")
-		count++
-		widths := o.Widths
-		for len(prefix) < len(widths) {
-			prefix = append(prefix, 0)
-		}
-		i := len(widths) - 1
-		for i >= 0 {
-			if prefix[i]+1 < widths[i] {
-				prefix[i]++
-				prefix = prefix[:i+1]
-				break
-			}
-			i--
-		}
-		if i < 0 || count >= limit {
-			break
-		}
-	}
-	return count
-}
-
-func (r *runner) some(s *Spec, nRandom int) {
-	o := r.one(s, Chooser{Kind: "oldest"}, "oldest-first")
-	if len(o.Trace) > 1 {
-		r.one(s, Chooser{Kind: "newest"}, "newest-first")
-		for k := 0; k < nRandom; k++ {
-			r.one(s, Chooser{Kind: "random", Seed: r.c.Rng.Uint64()}, "random")
+			r.c.Hist("not-sent-to-coq:unrecognised-error-text-or-unclassified-content")
 		}
 	}
 }
@@ -1079,11 +1107,13 @@ func main() {
 			c.Res.Notes = append(c.Res.Notes, fmt.Sprintf("%d run(s) exceeded the 10 s deadline once and completed normally when repeated with 30 s (machine load); they are judged on the repeated run", hangsNotReproduced))
 		}
 	}()
-	c.Res.Rule = "each case = (import graph incl. foreign .yaml leaves, faults injected into chosen files: read error / unparsable import lines / syntax error / truncation / undetectable or unconvertible foreign format, --max-import-depth, one completion order of the reads driven through the real parse.Parser.Parse by the gate reader, in a worker subprocess); distinct = distinct (input, release order); non-trivial = a faulty file was read and at least two reads were released"
+	c.Res.Rule = "each case = (import graph incl. foreign leaves of every kind an import accepts: .yaml/.yml/.json OpenAPI 2 and 3, .proto, .pb, .pb.json, .textpb, extensions no format lists; faults injected into chosen files: read error / unparsable import lines / syntax error / truncation at a byte offset / empty / content of another kind / two format signatures / undecodable payload / not JSON / import without `as`, --max-import-depth, one completion order of the reads driven through the real parse.Parser.Parse by the gate reader, in a worker subprocess); also importer.GuessFileType and pbutil.FromPBByteContents called directly on random names and contents, and the real binary (sysl pb / validate / import) on closures written to disk; distinct = distinct (input, release order); non-trivial = a faulty file was read and at least two reads were released (direct calls: a format, an ambiguity or a decoder was selected; binary: the closure is faulty)"
 	header := `From Coq Require Import List NArith Bool. Import ListNotations.
-Require Import Verif.Base.Harness Verif.Imports.Rules Verif.Imports.Collect Verif.Imports.Faults Verif.Imports.RunFaults Verif.Gen.ImportRules.
+From Coq Require Import String.
+Require Import Verif.Base.Harness Verif.Imports.Rules Verif.Imports.Collect Verif.Imports.Faults Verif.Imports.ForeignTypes Verif.Imports.Foreign Verif.Imports.RunFaults Verif.Gen.ImportRules Verif.Gen.FaultArms.
+Local Open Scope string_scope.
 Local Open Scope N_scope.`
-	footer := `Definition M := Eval vm_compute in mismatches (c06_ok current_rules) cases. Print M.`
+	footer := `Definition M := Eval vm_compute in mismatches (c06_ok current_rules current_tables) cases. Print M.`
 	r := &runner{c: c, cs: c.NewCases("C06", header, "c06_case", footer, 300)}
 	defer r.cs.Close()
 
@@ -1105,6 +1135,32 @@ Local Open Scope N_scope.`
 		return
 	}
 
+	// R3. deepen round 3 (foreign.go, streams.go). The slow kinds run on their own subprocesses from the start.
+	slow := r.slowTasks()
+	slowDone := make(chan struct{})
+	go func() {
+		defer close(slowDone)
+		var wg sync.WaitGroup
+		for _, t := range slow {
+			t := t
+			wg.Add(1)
+			go func() {
+				defer wg.Done()
+				w := common.NewWorker()
+				defer w.Close()
+				t.run(w)
+			}()
+			if c.Thorough() {
+				wg.Wait() // thorough: one at a time (24 more closures), quick: the six closures side by side
+			}
+		}
+		wg.Wait()
+	}()
+	cliDone := r.cli()
+	var ts []*task
+	all := func(s *Spec, limit int) { ts = append(ts, &task{s: s, label: "enumerated", all: limit}) }
+	one := func(s *Spec, ch Chooser, label string) { ts = append(ts, &task{s: s, label: label, ch: ch}) }
+
 	// 0. corpus: the three probed shapes of the design round + a failing foreign import with healthy siblings
 	diamond := &Spec{Dirs: [][]string{{}, {}, {}, {}, {}}, Foreign: []bool{false, false, false, false, true},
 		Imps: [][]Imp{{{1, 0}, {2, 0}, {4, 0}}, {{3, 0}}, {{3, 1}}, {}, nil}, Faults: map[int]string{}}
@@ -1114,9 +1170,9 @@ Local Open Scope N_scope.`
 	}{{3, "read"}, {3, "imports"}, {3, "body"}, {3, "trunc"}, {4, "detect"}, {4, "convert"}, {0, "read"}, {0, "imports"}, {0, "body"}, {1, "read"}} {
 		t := clone(diamond)
 		t.Faults[f.i] = f.k
-		r.all(t, 60)
+		all(t, 60)
 	}
-	r.all(diamond, 60)
+	all(diamond, 60)
 
 	// 0b. truncation at EVERY byte offset of the body of a non-root file and of the last two declarations of the root
 	for _, f := range []int{3, 0} {
@@ -1128,7 +1184,7 @@ Local Open Scope N_scope.`
 		for n := from; n < len(full); n++ {
 			t := clone(diamond)
 			t.Faults[f] = fmt.Sprintf("cut@%d", n)
-			r.one(t, Chooser{Kind: "oldest"}, "cut-enumeration")
+			one(t, Chooser{Kind: "oldest"}, "cut-enumeration")
 		}
 	}
 	// 0c. wide fan-outs with many failing reads and work left afterwards: failures first, failures last, random
@@ -1138,10 +1194,10 @@ Local Open Scope N_scope.`
 	}
 	for i := 0; i < nWide; i++ {
 		w := genWide(c.Rng)
-		r.one(w, Chooser{Kind: "prefer", List: w.faultyIDs()}, "failures-first")
-		r.one(w, Chooser{Kind: "avoid", List: w.faultyIDs()}, "failures-last")
-		r.one(w, Chooser{Kind: "random", Seed: c.Rng.Uint64()}, "random")
-		r.one(w, Chooser{Kind: "newest"}, "newest-first")
+		one(w, Chooser{Kind: "prefer", List: w.faultyIDs()}, "failures-first")
+		one(w, Chooser{Kind: "avoid", List: w.faultyIDs()}, "failures-last")
+		one(w, Chooser{Kind: "random", Seed: c.Rng.Uint64()}, "random")
+		one(w, Chooser{Kind: "newest"}, "newest-first")
 	}
 
 	nRand, nSched, maxN, matrixN := 90, 2, 6, 5
@@ -1158,7 +1214,7 @@ Local Open Scope N_scope.`
 			for _, k := range base.kindsFor(i) {
 				t := clone(base)
 				t.Faults[i] = k
-				r.all(t, 40)
+				all(t, 40)
 			}
 		}
 	}
@@ -1168,12 +1224,31 @@ Local Open Scope N_scope.`
 		s := genGraph(c.Rng, maxN)
 		addFaults(c.Rng, s, c.Rng.Intn(4))
 		if s.n() <= 4 && c.Rng.Chance(1, 3) {
-			r.all(s, 80)
+			all(s, 80)
 		} else {
-			r.some(s, nSched)
+			t := &task{s: s, label: "oldest-first", ch: Chooser{Kind: "oldest"}}
+			for k := 0; k < nSched; k++ {
+				t.some = append(t.some, c.Rng.Uint64())
+			}
+			ts = append(ts, t)
 		}
 		if i < 3 {
 			c.Sample(map[string]interface{}{"faults": s.Faults, "files": mkReplay(s, nil).Files})
 		}
 	}
+	// 3. foreign kinds x fault classes x positions; truncation of foreign files at every byte; several faulty files
+	ts = append(ts, r.foreignMatrix()...)
+	ts = append(ts, r.foreignCuts()...)
+	ts = append(ts, r.multiFault()...)
+	t0 := time.Now()
+	r.runTasks(ts, 8)
+	t1 := time.Now()
+	// 4. the dispatch functions called directly; 5. the real binary; then the slow closures
+	r.dispatchCases()
+	t2 := time.Now()
+	cliDone()
+	t3 := time.Now()
+	<-slowDone
+	r.recordTasks(slow)
+	c.Res.Extra["seconds"] = map[string]float64{"closures_on_8_workers": t1.Sub(t0).Seconds(), "direct_dispatch": t2.Sub(t1).Seconds(), "binary": t3.Sub(t2).Seconds(), "waiting_for_slow_kinds": time.Since(t3).Seconds()}
 }
